@@ -59,3 +59,26 @@ package server
 //@   calls_havoc
 //@   modifies *
 //@   assert at "newuuid, err := datastore.NewVersion(uuid, jsonData.Note, jsonData.Branch, uuidPtr)": jsonData.Branch != "" && jsonData.Branch != "master"
+
+// postNodeNoteHandler / postNodeLogHandler (C07, C20: a request answered with an error changes nothing):
+// the version manager is asked to change the note or log only when the posted JSON carries the value.
+//@ func postNodeNoteHandler
+//@   prop C07 C20
+//@   safety_off
+//@   calls_havoc
+//@   modifies *
+//@   assert at "if err := datastore.SetNodeNote(uuid, note); err != nil {": ok
+
+//@ func postNodeLogHandler
+//@   prop C07 C20
+//@   safety_off
+//@   calls_havoc
+//@   modifies *
+//@   assert at "if err := datastore.AddToNodeLog(uuid, logdata); err != nil {": ok
+
+//@ func postRepoLogHandler
+//@   prop C07 C20
+//@   safety_off
+//@   calls_havoc
+//@   modifies *
+//@   assert at "if err := datastore.AddToRepoLog(uuid, logdata); err != nil {": ok
